@@ -159,8 +159,12 @@ def copy_(op, dest, src, non_blocking=False):
     if not isinstance(dest, QBytesTensor):
         # Copy the dequantized values into a standard Tensor
         return op(dest, src.dequantize(), non_blocking)
-    if isinstance(src, QBytesTensor) and (src.qtype != dest.qtype or src.axis not in (None, dest.axis)):
-        # The data of a Tensor of another qtype, or quantized along another axis, cannot be copied as they are
+    if isinstance(src, QBytesTensor) and (
+        src.qtype != dest.qtype
+        or src.axis not in (None, dest.axis)
+        or (src.axis is not None and src._scale.shape != dest._scale.shape)
+    ):
+        # The data of a Tensor of another qtype, or quantized along another axis (or broadcast), cannot be copied as they are
         src = src.dequantize()
     if not isinstance(src, QBytesTensor):
         # Copy a standard Tensor into a quantized Tensor: project its values using the scale of the destination
